@@ -490,6 +490,56 @@ def _execute(plan, out, scratch):
                               % (w.norm(got_err)[:300],
                                  w.norm(want_err)[:300]),
                               {"cls": None, "site": "validator.py:main"})
+                # no file arguments and standard input that is not a
+                # terminal: standard input is the configuration
+                with open(paths[0], encoding="utf-8") as f:
+                    stext = f.read()
+                w.begin_op("validator-stdin")
+                sfull = [None]
+
+                def sdirect():
+                    try:
+                        return ZConfig.loadConfigFile(vschema,
+                                                      io.StringIO(stext))
+                    except ZConfig.ConfigurationError as e:
+                        sfull[0] = str(e)
+                        raise
+                sd = ops.config_outcome(sdirect)
+                err2 = io.StringIO()
+                fin = io.StringIO(stext)
+                fin.isatty = lambda: False
+                old2 = sys.stdin, sys.stdout, sys.stderr
+                sys.stdin, sys.stdout, sys.stderr = fin, io.StringIO(), err2
+                try:
+                    so2 = ops.guarded(lambda: {
+                        "ok": True,
+                        "status": ZConfig.validator.main(["-s", spath])})
+                except SystemExit as e:
+                    so2 = {"ok": False, "cls": "SystemExit", "cfgerr": False,
+                           "site": "validator.py:main", "raised_in": None,
+                           "msg": "SystemExit(%r)" % (e.code,)}
+                finally:
+                    sys.stdin, sys.stdout, sys.stderr = old2
+                w.end_op("done")
+                del w.warnings[:]
+                out["evaluations"] += 1
+                if not internal(sd):
+                    want2 = (1, sfull[0] + "\n") if not sd["ok"] else (0, "")
+                    if not so2["ok"]:
+                        violation("validator-raised",
+                                  "validator.main reading standard input "
+                                  "raised %s" % ops.brief(so2),
+                                  {"cls": so2["cls"],
+                                   "site": so2.get("site")})
+                    elif (so2["status"], err2.getvalue()) != want2:
+                        violation("validator-stdin",
+                                  "validator.main on standard input gave "
+                                  "status %r, stderr %r; a direct load says "
+                                  "%r" % (so2["status"],
+                                          w.norm(err2.getvalue())[:200],
+                                          want2),
+                                  {"cls": None, "site": "validator.py:main"})
+                    probe("validator-stdin-run")
                 if expect_err:
                     probe("validator-reported-invalid-file")
                     out["digests"].append(hashlib.sha256(json.dumps(
